@@ -177,9 +177,11 @@ CHECKS = {
        "over signed decimals, minLength/maxLength, two-entry enums, and integer+nullable, the real jsoac.newNode is executed on "
        "the real AST and a JSON-Schema evaluator written in the harness interprets the resulting Go struct (type, nullable, enum, "
        "minimum/maximum with OpenAPI 3.0 boolean exclusivity, minLength/maxLength; numeric comparisons with exact integers): when "
-       "Check() accepts, Example() is a valid instance, and so is every other value of the same literal kind that the same rules accept.",
+       "Check() accepts, Example() is a valid instance, and so is every other value of the same literal kind that the same rules "
+       "accept. A second harness does the same for trees: objects (properties, required), arrays (items as anyOf, minItems/maxItems), "
+       "`or` alternatives, null/nullable and references resolved to the conversions of the registered types (6 shapes, symbolic scalars).",
   note="Outside the claim: the JSON TEXT of the conversion (encoding/json reflection is not executed: well-formedness, key escaping, "
-       "omitempty), objects/arrays/or/$ref conversion, pattern, format, multipleOf.",
+       "omitempty), allOf/additionalProperties keywords, pattern, format, multipleOf.",
   ref="DESIGN.md §4 C08"),
  "C09": dict(
   text="Bounded symbolic model checking of determinism: a project of three user types, each broken or not depending on a symbolic digit "
